@@ -646,6 +646,111 @@ def widened_sentinels(ck, prog):
         r.skip('no widening store into a sentinel-carrying variable in %s' % ', '.join(sorted(files)))
 
 
+# ---------------------------------------------------------------------------
+# which of the caller's parameters / named constants goes to which parameter of the callee
+
+def argument_bindings(f, prog):
+    """{callee: {callee parameter name: sorted list of bindings}} for the calls f makes to functions defined in the
+    tree.  A binding is 'param:<name of f's parameter>' or 'const:<named constant>'; arguments that are locals,
+    members or compound expressions are not recorded (they are renamed and restructured by ordinary refactoring)."""
+    pnames = {p['id']: p['name'] for p in f.params}
+    out = {}
+    for b, i, c in f.calls():
+        cal = c.get('callee')
+        if not cal:
+            continue
+        cands = prog.by_name.get(cal, [])
+        if len(cands) != 1:
+            continue
+        g = cands[0]
+        if g.variadic or len(g.params) != len(c['args']):
+            continue
+        for prm, a in zip(g.params, c['args']):
+            x = a
+            while isinstance(x, dict) and x.get('k') in ('paren', 'cast') and isinstance(x.get('e'), dict):
+                x = x['e']
+            bind = None
+            if x.get('k') == 'ref' and x.get('kind') == 'param' and x.get('id') in pnames:
+                bind = 'param:' + pnames[x['id']]
+            elif is_int(x) and x.get('name') and x['name'] not in ('NULL',):
+                bind = 'const:' + x['name']
+            if bind is None:
+                bind = '-'
+            out.setdefault(cal, {}).setdefault(prm['name'], []).append(bind)
+    return {cal: {k: sorted(v) for k, v in d.items()} for cal, d in out.items()}
+
+
+def argument_roles(ck, prog):
+    pid = ck.pid
+    files = anchor_files(pid)
+    path = os.path.join(VERIF, 'engine', 'baseline_argbind.json')
+    if not os.path.exists(path):
+        return
+    with open(path) as fh:
+        base = json.load(fh).get(getattr(ck, 'variant', 'A'), {})
+    r = ck.rule(pid + '.A', 'parameters and named constants keep their role when handed on, in this property\'s files: '
+                'where a function passes one of its own parameters (or a named constant) to a parameter of a callee, '
+                'it is the same parameter / constant as in the reference tree, as long as both functions keep their '
+                'parameter names and the number of such calls is unchanged', 'TAB',
+                breaks='two same-typed arguments are exchanged, or the wrong one of two similar parameters is passed '
+                       '(the recipient under consideration instead of the addressed recipient, the new byte order '
+                       'instead of the old one): the callee decides about the wrong object', floor=5)
+    n = 0
+    for f in prog.funcs.values():
+        if f.file not in files or not prog.is_production(f):
+            continue
+        ref = base.get(f.file, {}).get(f.name)
+        if not ref or ref.get('#params') != [p['name'] for p in f.params]:
+            continue
+        cur = argument_bindings(f, prog)
+        for cal, pm in cur.items():
+            rp = ref.get(cal)
+            if not rp:
+                continue
+            # a role that moved from one parameter of the callee to another (two arguments exchanged)
+            lost, won = {}, {}
+            for pname, binds in pm.items():
+                rb = rp.get(pname)
+                if rb is None or len(rb) != len(binds):
+                    continue
+                for x in set(rb) | set(binds):
+                    if x == '-':
+                        continue
+                    if rb.count(x) > binds.count(x):
+                        lost.setdefault(x, []).append(pname)
+                    if binds.count(x) > rb.count(x):
+                        won.setdefault(x, []).append(pname)
+            for x in set(lost) & set(won):
+                line = next((c['line'] for b, i, c in f.calls(cal)), f.line)
+                r.violation('%s:%s(%s moved)' % (f.name, cal, x.split(':', 1)[1]), f.name, f.file, line,
+                            '%s now passes %s as the `%s` argument of %s; in the reference tree it is the `%s` argument '
+                            '(two arguments exchanged)' % (f.name, x.split(':', 1)[1], ', '.join(won[x]), cal,
+                                                           ', '.join(lost[x])))
+            for pname, binds in pm.items():
+                rb = rp.get(pname)
+                if rb is None or len(rb) != len(binds):
+                    continue
+                n += 1
+                key = '%s:%s(%s)' % (f.name, cal, pname)
+                if rb == binds:
+                    r.ok(key)
+                    continue
+                gone = [x for x in rb if x not in binds or rb.count(x) > binds.count(x)]
+                new = [x for x in binds if x not in rb or binds.count(x) > rb.count(x)]
+                # only a replacement of one recorded role by another recorded role is reported
+                gone = sorted(set(x for x in gone if x != '-'))
+                new = sorted(set(x for x in new if x != '-'))
+                if gone and new:
+                    line = next((c['line'] for b, i, c in f.calls(cal)), f.line)
+                    r.violation(key, f.name, f.file, line,
+                                '%s now passes %s as the `%s` argument of %s where the reference tree passes %s' % (
+                                    f.name, ', '.join(x.split(':', 1)[1] for x in new), pname, cal,
+                                    ', '.join(x.split(':', 1)[1] for x in gone)))
+                else:
+                    r.ok(key)
+    r.note('%d (function, callee, parameter) bindings compared with the reference' % n)
+
+
 def run(ck, prog):
     error_discipline(ck, prog)
     onebit_stores(ck, prog)
@@ -654,3 +759,4 @@ def run(ck, prog):
     field_widths(ck, prog)
     allocation_results(ck, prog)
     widened_sentinels(ck, prog)
+    argument_roles(ck, prog)
